@@ -32,6 +32,14 @@ CHECKS = {
   "Generated histories x small cache limits x generated worker schedules; after every op and every worker step stat() is compared with the resident set from the guarded accessor; over-limit states after appends must hold only entries above the boundary; after idle + drain nothing at or below the boundary is resident.",
   "Resident set via verif-hooks accessor; over-limit clause judged after appends (the writes that insert and trigger eviction), see DESIGN.md.",
   "property-based testing (proptest): stateful invariant checking over generated schedules", "DESIGN.md §4 C15"),
+ "C03": ("fault_enumeration",
+  "Per generated (history, worker schedule): every position of the totally ordered I/O trace is a crash point; process-crash images (incl. prefixes of the write in progress) are enumerated completely, power-loss images from a fixed per-file variant list (prefixes of unsynced bytes, zero tails from record boundaries) with sampled cross-file combinations; every distinct image is opened with the real RaftLog::open and, if it opens, must equal a model prefix between 'acknowledged' and 'issued'. The histories themselves are sampled.",
+  "Crash model of the property (no lost directory entries / no reordering inside synced data); caller-side calls ungated (argued in DESIGN.md §2.3); Err/panic outcomes belong to C05.",
+  "property-based testing (proptest) + crash-point/fault enumeration over a recorded I/O trace (libc interposition, shadow file system), model-prefix oracle", "DESIGN.md §4 C03"),
+ "C05": ("fault_enumeration",
+  "Same crash-image enumeration as C03; every image must open Ok (no Err, no panic); sampled recovered stores must follow the model through further writes, a restart and an acknowledged flush; recovery itself is traced and crashed again (depth 2). Failing images are classified by input class with the reference decoder.",
+  "As C03. One known class (crash during rotation leaves a gap, known_findings.json) is reported as KNOWN-FINDING and counted as excluded.",
+  "property-based testing (proptest) + crash-point enumeration incl. crash-during-recovery, open/usable oracle", "DESIGN.md §4 C05"),
 }
 
 ALL = [f"C{i:02d}" for i in range(1, 17)]
